@@ -6,9 +6,13 @@
 (* checks the state after every operation.  Sort is resolved with the      *)
 (* stable order here (one emission per history); the judge accepts any     *)
 (* valid order.  Used exhaustively (BFS) and with -simulate for deep walks.*)
+(* The universe is a parameter: NewSizes (sizes of freshly created arrays), *)
+(* Ns (how many bins add-empty / remove add or drop) and Ops (the enabled   *)
+(* operations) - so that narrow universes can be enumerated DEEPER (e.g. a  *)
+(* three-bin array that is sorted, shrunk, disturbed and sorted again).     *)
 (***************************************************************************)
 EXTENDS BinnerVal, Json
-CONSTANT MaxOps
+CONSTANTS MaxOps, NewSizes, Ns, Ops
 VARIABLES hist
 gvars == <<v, live, keep, hist>>
 GInit == BInit /\ keep = TRUE /\ hist = <<>>
@@ -18,14 +22,14 @@ StableSort(a) == /\ a \in live
                     IN v' = [v EXCEPT ![a] = [i \in 1..NB(a) |-> v[a][idx[i]]]]
                  /\ UNCHANGED live
 GNext == /\ Len(hist) < MaxOps /\ UNCHANGED keep
-         /\ \/ \E a \in Slots, n \in 0..2 : New(a, n) /\ hist' = Append(hist, Rec("new", a, 0, 0, 0, n, 0))
-            \/ \E a \in Slots, it \in Items, i \in 1..MaxBins : Add(a, it, i) /\ hist' = Append(hist, Rec("add", a, 0, i, 0, 0, it))
-            \/ \E a \in Slots, i \in 1..MaxBins : AddBad(a, i) /\ hist' = Append(hist, Rec("addbad", a, 0, i, 0, 0, 0))
-            \/ \E a, b \in Slots : Copy(a, b) /\ hist' = Append(hist, Rec("copy", a, b, 0, 0, 0, 0))
-            \/ \E a \in Slots : NB(a) >= 2 /\ StableSort(a) /\ hist' = Append(hist, Rec("sort", a, 0, 0, 0, 0, 0))
-            \/ \E a \in Slots, n \in 0..2 : AddEmpty(a, n) /\ hist' = Append(hist, Rec("addempty", a, 0, 0, 0, n, 0))
-            \/ \E a \in Slots, n \in 0..2 : RemoveLast(a, n) /\ hist' = Append(hist, Rec("remove", a, 0, 0, 0, n, 0))
-            \/ \E a, b \in Slots : Concat(a, b) /\ hist' = Append(hist, Rec("concat", a, b, 0, 0, 0, 0))
-            \/ \E a, b \in Slots, i, j \in 1..MaxBins : Combine(a, i, b, j) /\ hist' = Append(hist, Rec("combine", a, b, i, j, 0, 0))
+         /\ \/ "new" \in Ops /\ \E a \in Slots, n \in NewSizes : New(a, n) /\ hist' = Append(hist, Rec("new", a, 0, 0, 0, n, 0))
+            \/ "add" \in Ops /\ \E a \in Slots, it \in Items, i \in 1..MaxBins : Add(a, it, i) /\ hist' = Append(hist, Rec("add", a, 0, i, 0, 0, it))
+            \/ "addbad" \in Ops /\ \E a \in Slots, i \in 1..MaxBins : AddBad(a, i) /\ hist' = Append(hist, Rec("addbad", a, 0, i, 0, 0, 0))
+            \/ "copy" \in Ops /\ \E a, b \in Slots : Copy(a, b) /\ hist' = Append(hist, Rec("copy", a, b, 0, 0, 0, 0))
+            \/ "sort" \in Ops /\ \E a \in Slots : NB(a) >= 2 /\ StableSort(a) /\ hist' = Append(hist, Rec("sort", a, 0, 0, 0, 0, 0))
+            \/ "addempty" \in Ops /\ \E a \in Slots, n \in Ns : AddEmpty(a, n) /\ hist' = Append(hist, Rec("addempty", a, 0, 0, 0, n, 0))
+            \/ "remove" \in Ops /\ \E a \in Slots, n \in Ns : RemoveLast(a, n) /\ hist' = Append(hist, Rec("remove", a, 0, 0, 0, n, 0))
+            \/ "concat" \in Ops /\ \E a, b \in Slots : Concat(a, b) /\ hist' = Append(hist, Rec("concat", a, b, 0, 0, 0, 0))
+            \/ "combine" \in Ops /\ \E a, b \in Slots, i, j \in 1..MaxBins : Combine(a, i, b, j) /\ hist' = Append(hist, Rec("combine", a, b, i, j, 0, 0))
 EmitAtEnd == (Len(hist) = MaxOps) => PrintT("@@E " \o ToJson([ops |-> hist]))
 =============================================================================
